@@ -327,6 +327,11 @@ impl UperWriter {
         if const_map_or!(self.scope, Scope::encode_as_open_type_field, false) {
             let mut writer = UperWriter::with_capacity(512);
             let result = f(&mut writer)?;
+            if writer.bits.bit_len() == 0 {
+                // ITU-T X.691 | ISO/IEC 8825-2:2015, chapter 11.2.1 (via 11.1.3): an open type field is
+                // at least one octet long, an empty encoding becomes a single zero octet
+                writer.bits.write_bits(&[0x00])?;
+            }
             self.bits
                 .write_octetstring(None, None, false, writer.bits.content())?;
             Ok(result)
@@ -486,6 +491,10 @@ impl Writer for UperWriter {
                 // TODO performance
                 let mut writer = UperWriter::with_capacity(512);
                 choice.write_content(&mut writer)?;
+                if writer.bits.bit_len() == 0 {
+                    // 11.2.1: an open type field is at least one octet long
+                    writer.bits.write_bits(&[0x00])?;
+                }
                 w.bits
                     .write_octetstring(None, None, false, writer.byte_content())
             } else {
